@@ -362,7 +362,9 @@ def place_outcome(d, d0, r, r0, path, toks):
     try:
         out = sp.apply_resultpath(d, r, path)
     except ResultPathMatchFailure:
-        return not ref.placeable(d0, toks)          # failing on a clearly placeable path is a violation too
+        # failing on a clearly placeable path is a violation too; and a refused placement must leave the input as it
+        # was ("never corrupt data": the raw input is what a Catcher's ResultPath or a retry goes on to use)
+        return not ref.placeable(d0, toks) and d == d0
     if not ref.finite_tree(out):
         return False
     return ref.get(out, toks) == r0 and ref.frame_same(d0, out, toks)
